@@ -1,7 +1,7 @@
 """Configuration of ./check C12 (see pylib/props.py)."""
 CFG = dict(
         coq=["props/C12.vo"],
-        tie=["gen/Tie_C12.vo"],
+        tie=["gen/Tie_C12.vo", "gen/Tie_Code_ChildrenFirst.vo"],
         model_vo=["model/PruneRepo.vo", "model/Prune.vo"],
         extract="Ex_C12",
         level_text="Theorems over ALL repository states (any commit DAG, shallow commits, shared blocks, dangling indices, any ref "
